@@ -1,24 +1,25 @@
-//! A flag that can be raised to wake a task.
+//! A flag that can be raised to wake tasks.
 //!
-//! Copied wholesale from <https://docs.rs/futures/latest/futures/task/struct.AtomicWaker.html>
-//! unfortunately not aware of crated version!
+//! Modelled on <https://docs.rs/futures/latest/futures/task/struct.AtomicWaker.html>, but keeps
+//! one waker per waiting task, as a flag is shared by all clones of a ticket (and the job's
+//! "gone" flag by all tickets of the job), which may be awaited from several tasks at once.
 
 use std::{
 	pin::Pin,
 	sync::{
-		atomic::{AtomicBool, Ordering::Relaxed},
-		Arc,
+		atomic::{AtomicBool, Ordering::SeqCst},
+		Arc, Mutex,
 	},
 };
 
 use futures::{
 	future::Future,
-	task::{AtomicWaker, Context, Poll},
+	task::{Context, Poll, Waker},
 };
 
 #[derive(Debug)]
 struct Inner {
-	waker: AtomicWaker,
+	wakers: Mutex<Vec<Waker>>,
 	set: AtomicBool,
 }
 
@@ -34,18 +35,21 @@ impl Default for Flag {
 impl Flag {
 	pub fn new(value: bool) -> Self {
 		Self(Arc::new(Inner {
-			waker: AtomicWaker::new(),
+			wakers: Mutex::new(Vec::new()),
 			set: AtomicBool::new(value),
 		}))
 	}
 
 	pub fn raised(&self) -> bool {
-		self.0.set.load(Relaxed)
+		self.0.set.load(SeqCst)
 	}
 
 	pub fn raise(&self) {
-		self.0.set.store(true, Relaxed);
-		self.0.waker.wake();
+		self.0.set.store(true, SeqCst);
+		let wakers = std::mem::take(&mut *self.0.wakers.lock().expect("flag lock poisoned"));
+		for waker in wakers {
+			waker.wake();
+		}
 	}
 }
 
@@ -54,18 +58,22 @@ impl Future for Flag {
 
 	fn poll(self: Pin<&mut Self>, cx: &mut Context<'_>) -> Poll<()> {
 		// quick check to avoid registration if already done.
-		if self.0.set.load(Relaxed) {
+		if self.0.set.load(SeqCst) {
 			return Poll::Ready(());
 		}
 
-		self.0.waker.register(cx.waker());
+		let mut wakers = self.0.wakers.lock().expect("flag lock poisoned");
 
-		// Need to check condition **after** `register` to avoid a race
+		// Need to check condition **after** taking the lock to avoid a race
 		// condition that would result in lost notifications.
-		if self.0.set.load(Relaxed) {
-			Poll::Ready(())
-		} else {
-			Poll::Pending
+		if self.0.set.load(SeqCst) {
+			return Poll::Ready(());
 		}
+
+		if !wakers.iter().any(|w| w.will_wake(cx.waker())) {
+			wakers.push(cx.waker().clone());
+		}
+
+		Poll::Pending
 	}
 }
